@@ -534,3 +534,152 @@ Example C19_example_gen_health :
   snd (gen_health_loop 2 (fun _ => false) [fail; ok; fail; fail] 0 hl_init) = Some 3%nat /\
   snd (gen_health_loop 2 (fun i => Nat.even i) [fail; ok; fail; fail] 0 hl_init) = Some 3%nat.
 Proof. vm_compute. repeat split. Qed.
+
+(* ==== fifth part: relay connections -- "no relayed call" is "no live relay item, no held unit" ====
+   Model/IdleRelay.v: the combined state of a relaying channel = the relay bookkeeping of property
+   C09 (Model/RelayItems.v, imported read-only: items, tombstones, timers, goroutines, the counter
+   Relayer.pending per connection) + the connection table the sweep works on (Model/Idle.v).
+   [linked]: the k_relay the sweep reads IS Relayer.countPending() of the connection's relayer.
+   Gen/GenIdleRelay.v (go2v statement targets, relay.go): the counter after timeoutRelayItem /
+   failRelayItem / finishRelayItem / the rejection branch of handleCallReq, after decrementPending,
+   after the increment of canHandleNewCall, and countPending.  Proofs/IdleRelayP.v. *)
+From Verif Require Import Gen.GenRelayFwd Gen.GenIdleRelay Model.RelayItems Proofs.RelayInv9P Proofs.RelayThmP
+  Model.IdleRelay Proofs.IdleRelayP.
+
+(* Every function of relay.go that ENDS a relay item gives the unit of Relayer.pending back exactly
+   when the relay model's step pushes the decrement (IDec) -- as regenerated from the source:
+   timeoutRelayItem (both sides of a call: isOriginator or not), failRelayItem (whatever the reason,
+   also when no error frame is sent to a slow source), finishRelayItem, and the two rejections of
+   handleCallReq (no destination / destination connection cannot take the call).  [decs k code] =
+   number of decrementPending obligations for connection k in the code a step pushes; [took] =
+   Entomb / deleteCall handed the item to this caller. *)
+Theorem C19_gen_relay_ends :
+  (forall cf st t o room p,
+     p - decs (key_conn t) (snd (exec cf st (IEntomb t (FromTimeout o)) room)) =
+     sweepRelayTimeoutPending (took (snd (items_entomb cf st t))) o p) /\
+  (forall cf st t r room p,
+     p - decs (key_conn t) (snd (exec cf st (IEntomb t (FromFail r)) room)) =
+     sweepRelayFailPending true true (took (snd (items_entomb cf st t))) (orig_of (snd (items_entomb cf st t)))
+       (r =? reason_source_slow) p) /\
+  (forall cf st t r room,
+     snd (exec cf st (IFailGet t r) room) = (if took (snd (items_get st t true)) then [IEntomb t (FromFail r)] else []) /\
+     (forall found stopped ok orig slow p, found && stopped = false -> sweepRelayFailPending found stopped ok orig slow p = p)) /\
+  (forall cf st t lk room p,
+     p - decs (key_conn t) (snd (exec cf st (IDelete t lk) room)) =
+     sweepRelayFinishPending (took (snd (items_delete_call st t lk))) (orig_of (snd (items_delete_call st t lk))) p) /\
+  (forall cf st k f e c room p,
+     p - decs k (snd (exec cf st (IGetDest k f e c) room)) = sweepRelayNoDestPending (get_dest_rejects st k f e) p) /\
+  (forall cf st k f e c d room p,
+     p - decs k (snd (exec cf st (IRemoteCan k f e c d) room)) =
+     sweepRelayNoDestPending (negb (relayCanHandleNewCall (c_state (get_conn st d)))) p).
+Proof. exact gen_relay_ends. Qed.
+Print Assumptions C19_gen_relay_ends.
+
+(* The counter itself: decrementPending is the model's IDec (minus one as a uint32, then the close
+   check by the same goroutine), the increment of canHandleNewCall is that of ICanHandle /
+   IRemoteCan, countPending is the model's c_pending; and hasPendingCalls, as generated, consults
+   the relay through canClose of countPending ONLY: on a linked connection it is the hand model's
+   has_pending_calls, i.e. inbound calls, outbound calls, or counter <> 0. *)
+Theorem C19_gen_relay_counter :
+  (forall cf st k room,
+     c_pending (get_conn (fst (exec cf st (IDec k) room)) k) = wrapU 32 (sweepRelayDecrement (c_pending (get_conn st k))) /\
+     snd (exec cf st (IDec k) room) = [ICheck k]) /\
+  (forall cf st k f e c room,
+     c_pending (get_conn (fst (exec cf st (ICanHandle k f e c) room)) k) =
+     (if relayCanHandleNewCall (c_state (get_conn st k))
+      then wrapU 32 (sweepRelayAdmitPending true (c_pending (get_conn st k)))
+      else sweepRelayAdmitPending false (c_pending (get_conn st k)))) /\
+  (forall cf st k f e c d room,
+     c_pending (get_conn (fst (exec cf st (IRemoteCan k f e c d) room)) d) =
+     (if relayCanHandleNewCall (c_state (get_conn st d))
+      then wrapU 32 (sweepRelayAdmitPending true (c_pending (get_conn st d)))
+      else sweepRelayAdmitPending false (c_pending (get_conn st d)))) /\
+  (forall st k, relay_count st k = c_pending (get_conn st k)) /\
+  (forall st id c, k_relay c = Some (relay_count st id) ->
+     relay_has_pending st id c = has_pending_calls c /\
+     relay_has_pending st id c = ((k_inb c >? 0) || (k_outb c >? 0) || negb (c_pending (get_conn st id) =? 0))).
+Proof. exact gen_relay_counter. Qed.
+Print Assumptions C19_gen_relay_counter.
+
+(* C09_pending_exact as the sweep reads it: in every reachable state of the relay (all
+   interleavings of frames, timers, slow connections, rejections, connection loss; fresh request
+   ids) Relayer.canClose of connection k holds if the connection has no live (non-tombstone) relay
+   item and no relay goroutine holds a unit of it (is between canHandleNewCall and addRelayItem or
+   between Entomb / deleteCall and decrementPending) -- and only then, as long as fewer than 2^32
+   calls are in flight on the connection. *)
+Theorem C19_relay_can_close : forall cf ls st, run_fresh cf RelayItems.init ls = Some st -> forall k,
+  (no_live_item st k -> no_held_unit st k -> relay_count st k = 0 /\ relayCanClose false (relay_count st k) = true) /\
+  (relay_load st k < 2 ^ 32 ->
+   (relayCanClose false (relay_count st k) = true <-> no_live_item st k /\ no_held_unit st k)).
+Proof. exact relay_can_close_iff. Qed.
+Print Assumptions C19_relay_can_close.
+
+(* THE IF DIRECTION FOR RELAY CONNECTIONS, over the combined state: the relay bookkeeping is in
+   any reachable state, the connection table is linked to it.  A connection whose relayed calls
+   have all ended -- by completion, by the relay's own timeout on either side, by a cancel, by a
+   failed send towards a slow destination or a slow source, by a rejection, by the loss of the other
+   connection: every path of the relay model -- i.e. that has no live relay item and no goroutine
+   still on its way to decrementPending, and that is tracked, Active, without local calls and at
+   least MaxIdleTime past its last call frame, IS closed by the sweep. *)
+Theorem C19_relay_ended_swept : forall cf ls rc, run_fresh cf RelayItems.init ls = Some (rc_relay rc) -> linked rc ->
+  forall mi id c,
+  NoDup (map fst (ch_conns (rc_chan rc))) -> min_duration < mi <= max_duration ->
+  Idle.lookup id (ch_conns (rc_chan rc)) = Some c ->
+  no_live_item (rc_relay rc) id -> no_held_unit (rc_relay rc) id ->
+  k_tracked c = true -> k_state c = c_connectionActive -> k_inb c = 0 -> k_outb c = 0 ->
+  ch_now (rc_chan rc) - Z.max (k_lr c) (k_lw c) >= mi ->
+  Idle.lookup id (ch_conns (rc_chan (rsweep mi rc))) = Some (conn_close c) /\ is_active (conn_close c) = false.
+Proof. exact combined_ended_swept. Qed.
+Print Assumptions C19_relay_ended_swept.
+
+(* Both directions (C19_sweep_iff on the combined state): the sweep closes relay connection id iff
+   it is tracked, Active, has no local call, no live relay item, no held unit, and is idle for
+   MaxIdleTime; a connection it does not close is untouched. *)
+Theorem C19_relay_sweep_iff : forall cf ls rc, run_fresh cf RelayItems.init ls = Some (rc_relay rc) -> linked rc ->
+  forall mi id c,
+  NoDup (map fst (ch_conns (rc_chan rc))) -> min_duration < mi <= max_duration ->
+  Idle.lookup id (ch_conns (rc_chan rc)) = Some c -> 0 <= k_inb c -> 0 <= k_outb c ->
+  relay_load (rc_relay rc) id < 2 ^ 32 ->
+  exists c', Idle.lookup id (ch_conns (rc_chan (rsweep mi rc))) = Some c' /\
+    ((is_active c = true /\ is_active c' = false) <->
+     (k_tracked c = true /\ k_state c = c_connectionActive /\ k_inb c = 0 /\ k_outb c = 0 /\
+      (no_live_item (rc_relay rc) id /\ no_held_unit (rc_relay rc) id) /\
+      ch_now (rc_chan rc) - Z.max (k_lr c) (k_lw c) >= mi)) /\
+    (is_active c = true /\ is_active c' = false -> c' = conn_close c) /\
+    (~ (is_active c = true /\ is_active c' = false) -> c' = c).
+Proof. exact combined_sweep_iff. Qed.
+Print Assumptions C19_relay_sweep_iff.
+
+(* The whole channel once the relay is at rest (no relay goroutine has anything left to do, no
+   timeout timer is pending; tombstones may still await collection): EVERY connection that is
+   tracked, Active, without local calls and idle for MaxIdleTime is closed by the next sweep --
+   no relayed call that has ended, however it ended, keeps a connection open. *)
+Theorem C19_relay_quiescent_swept : forall cf ls st, run_fresh cf RelayItems.init ls = Some st -> quiescent st ->
+  forall mi s, NoDup (map fst (ch_conns s)) -> min_duration < mi <= max_duration ->
+  linked {| rc_relay := st; rc_chan := s |} ->
+  forall id c, Idle.lookup id (ch_conns s) = Some c ->
+  k_tracked c = true -> k_state c = c_connectionActive -> k_inb c = 0 -> k_outb c = 0 ->
+  ch_now s - Z.max (k_lr c) (k_lw c) >= mi ->
+  Idle.lookup id (ch_conns (rc_chan (rsweep mi {| rc_relay := st; rc_chan := s |}))) = Some (conn_close c) /\
+  is_active (conn_close c) = false.
+Proof. exact relay_quiescent_swept. Qed.
+Print Assumptions C19_relay_quiescent_swept.
+
+(* non-vacuity: caller connection 0, callee connection 1, one relayed call that nobody answers.
+   While it is in flight both relayers count 1 and a sweep at MaxIdleTime + 100 leaves both
+   connections open; after BOTH timers have fired (the callee-side one is not the originator) the
+   relay is at rest, both connections have no live item and no held unit, both counters are 0 and
+   the same sweep closes both connections. *)
+Example C19_example_relay_timeout :
+  run_fresh tmo_cf RelayItems.init tmo_inflight = Some (state_after tmo_inflight) /\
+  run_fresh tmo_cf RelayItems.init tmo_labels = Some (state_after tmo_labels) /\
+  map (relay_count (state_after tmo_inflight)) [0; 1] = [1; 1] /\
+  map (relay_load (state_after tmo_inflight)) [0; 1] = [1; 1] /\
+  closed_between (ch_conns tmo_chan)
+    (ch_conns (rc_chan (rsweep 100 (link (state_after tmo_inflight) tmo_chan)))) = [] /\
+  map (relay_load (state_after tmo_labels)) [0; 1] = [0; 0] /\
+  map (relay_count (state_after tmo_labels)) [0; 1] = [0; 0] /\
+  threads (state_after tmo_labels) = [] /\
+  closed_between (ch_conns tmo_chan)
+    (ch_conns (rc_chan (rsweep 100 (link (state_after tmo_labels) tmo_chan)))) = [0; 1].
+Proof. vm_compute. repeat split. Qed.
